@@ -56,6 +56,7 @@ def _scene(e):
     with e.world.inspect():
         files = e.files()
     name, md = reader.current_metadata(files, loads=e.symjson.loads)
+    md["__name__"] = name
     reach = reader.reachable(files, md)
     protected = {p for p in files if p.startswith("data/auto_") and p not in reach} | {pending}
     markers = sorted(p for p in files if p.startswith("metadata/inflight/"))
@@ -117,17 +118,34 @@ def damaged(sp, rig="L", family="lists", damage="missing"):
     with Env(sp, rig=rig, clock="tick") as e:
         w = e.world
         t, tx, files0, md, reach, protected, markers, lists, manifests = _scene(e)
-        pool = {"lists": lists, "manifests": manifests, "markers": markers}[family]
+        pool = {"lists": lists, "manifests": manifests, "markers": markers, "metadata": ["metadata/" + md["__name__"]]}[family]
         i = sp.choose(len(pool), name="target")
         target = pool[i]
         st = t.storage
-        if damage in ("missing", "prefix", "garbage"):
+        if damage.startswith("json_"):
+            # the metadata file stays VALID JSON but one snapshot entry is damaged (a flipped character in a key / a value)
+            import json as _json
+            with w.inspect():
+                doc = _json.loads(files0[target].decode())
+                si = sp.choose(len(doc["snapshots"]), name="snapshot_index")
+                snap = doc["snapshots"][si]
+                if damage == "json_key_mangled":
+                    snap["manifest_lisu"] = snap.pop("manifest_list")
+                elif damage == "json_value_null":
+                    snap["manifest_list"] = None
+                elif damage == "json_value_empty":
+                    snap["manifest_list"] = ""
+                elif damage == "json_value_wrong":
+                    snap["manifest_list"] = snap["manifest_list"][:-6] + "x.avro"
+                st.write_file(target, _json.dumps(doc).encode())
+                files0 = e.files()
+        elif damage in ("missing", "prefix", "garbage"):
             with w.inspect():
                 raw = files0[target]
                 if damage == "missing":
                     st.delete_file(target)
                 elif damage == "prefix":
-                    cut = {"lists": 40, "manifests": 40, "markers": 5}[family]
+                    cut = {"lists": 40, "manifests": 40, "markers": 5, "metadata": 60}[family]
                     st.write_file(target, raw[:cut])
                 else:
                     st.write_file(target, b"\x00\xffnot-a-valid-file\x00" * 3)
@@ -155,7 +173,7 @@ def damaged(sp, rig="L", family="lists", damage="missing"):
         sp.note("target", target)
         sp.note("outcome", raised or "returned")
         sp.reach("ran")
-        must = family in ("lists", "manifests") and damage != "stat_fail"
+        must = family in ("lists", "manifests", "metadata") and damage != "stat_fail"
         # a marker whose payload is gone keeps protecting what it named: the file it names must survive
         _judge(sp, e, f"{rig}:{family}:{damage}", f"{target} {damage}", files0, reach, protected, raised, must_raise=must)
 
@@ -206,7 +224,8 @@ def obligations(tier):
                           timeout=T, bounds=f"rig {rig}: every single fault position of one collection run, fault = {kind} error before effect", weight=5))
         fams = {"lists": ["missing", "prefix", "garbage", "err_perm", "err_trans", "read_fail"],
                 "manifests": ["missing", "prefix", "garbage", "err_perm", "err_trans", "read_fail"],
-                "markers": ["prefix", "garbage", "err_perm", "stat_fail"]}
+                "markers": ["prefix", "garbage", "err_perm", "stat_fail"],
+                "metadata": ["prefix", "garbage", "read_fail", "json_key_mangled", "json_value_null", "json_value_empty", "json_value_wrong"]}
         for fam, dmgs in fams.items():
             for d in dmgs:
                 if tier == "quick" and rig == "S" and d in ("prefix", "err_trans"):
